@@ -117,6 +117,27 @@ func runScript(id int, script []epochScript, tm timing, can *mon.Canary) {
 	unexpectedConnReq := 0
 	curCh := chanFor(same, 0)
 	slack := func() time.Duration { return can.Slack() }
+	// frames the scripted gateway sends are handed over by one goroutine, in the
+	// order the handler produced them
+	deliverQ := make(chan knxnet.Service, 4096)
+	deliverStop := make(chan struct{})
+	go func() {
+		for {
+			select {
+			case x := <-deliverQ:
+				s.Deliver(x)
+			case <-deliverStop:
+				return
+			}
+		}
+	}()
+	defer close(deliverStop)
+	send := func(x knxnet.Service) {
+		select {
+		case deliverQ <- x:
+		default:
+		}
+	}
 	s.Handler = func(ev memsock.Event) {
 		mu.Lock()
 		defer mu.Unlock()
@@ -127,7 +148,7 @@ func runScript(id int, script []epochScript, tm timing, can *mon.Canary) {
 			case "connect0":
 				phase = "healthy"
 				hbCopies, hbAnswered = 0, 0
-				go s.Deliver(&knxnet.ConnRes{Channel: curCh, Control: knxnet.HostInfo{Protocol: knxnet.UDP4}})
+				send(&knxnet.ConnRes{Channel: curCh, Control: knxnet.HostInfo{Protocol: knxnet.UDP4}})
 			case "reconnecting", "cause":
 				phase = "reconnecting"
 				connCopies++
@@ -138,7 +159,7 @@ func runScript(id int, script []epochScript, tm timing, can *mon.Canary) {
 					phase = "syncing"
 					hbCopies, hbAnswered = 0, 0
 					ch := curCh
-					go s.Deliver(&knxnet.ConnRes{Channel: ch, Control: knxnet.HostInfo{Protocol: knxnet.UDP4}})
+					send(&knxnet.ConnRes{Channel: ch, Control: knxnet.HostInfo{Protocol: knxnet.UDP4}})
 				}
 				switch e.Reconnect {
 				case "ok":
@@ -146,7 +167,7 @@ func runScript(id int, script []epochScript, tm timing, can *mon.Canary) {
 				case "busy-ok":
 					if connCopies <= 2 {
 						st := []uint8{0x24, 0x25}[connCopies-1]
-						go s.Deliver(&knxnet.ConnRes{Status: knxnet.ErrCode(st)})
+						send(&knxnet.ConnRes{Status: knxnet.ErrCode(st)})
 					} else {
 						okRes()
 					}
@@ -157,10 +178,10 @@ func runScript(id int, script []epochScript, tm timing, can *mon.Canary) {
 				case "refused":
 					if connCopies == 1 {
 						st := e.ReStatus
-						go s.Deliver(&knxnet.ConnRes{Status: knxnet.ErrCode(st)})
+						send(&knxnet.ConnRes{Status: knxnet.ErrCode(st)})
 					}
 				case "busy-forever":
-					go s.Deliver(&knxnet.ConnRes{Status: 0x24})
+					send(&knxnet.ConnRes{Status: 0x24})
 				case "unanswered":
 				}
 			case "syncing":
@@ -189,33 +210,31 @@ func runScript(id int, script []epochScript, tm timing, can *mon.Canary) {
 					hbAnswered++
 					ch := p.Channel
 					dup := e.Noise
-					go func() {
-						s.Deliver(&knxnet.ConnStateRes{Channel: ch})
-						if dup {
-							// a duplicated answer (or a gateway answering every copy): the
-							// surplus must not satisfy a later heartbeat
-							s.Deliver(&knxnet.ConnStateRes{Channel: ch})
-						}
-					}()
+					send(&knxnet.ConnStateRes{Channel: ch})
+					if dup {
+						// a duplicated answer (or a gateway answering every copy): the
+						// surplus must not satisfy a later heartbeat
+						send(&knxnet.ConnStateRes{Channel: ch})
+					}
 				}
 				return
 			}
 			switch e.Cause {
 			case "status":
 				ch, st := p.Channel, e.Status
-				go s.Deliver(&knxnet.ConnStateRes{Channel: ch, Status: knxnet.ErrCode(st)})
+				send(&knxnet.ConnStateRes{Channel: ch, Status: knxnet.ErrCode(st)})
 			case "foreign":
 				ch := p.Channel + 1
-				go s.Deliver(&knxnet.ConnStateRes{Channel: ch})
+				send(&knxnet.ConnStateRes{Channel: ch})
 			}
 		case spec.SvcTunnelReq:
 			if (phase == "healthy" || phase == "cause") && p.Channel == curCh {
 				ch, sq := p.Channel, p.Seq
-				go s.Deliver(&knxnet.TunnelRes{Channel: ch, SeqNumber: sq})
+				send(&knxnet.TunnelRes{Channel: ch, SeqNumber: sq})
 			}
 		case spec.SvcDiscReq:
 			ch := p.Channel
-			go s.Deliver(&knxnet.DiscRes{Channel: ch})
+			send(&knxnet.DiscRes{Channel: ch})
 		}
 	}
 	getPhase := func() (string, int, int, uint8) {
@@ -544,11 +563,19 @@ func runScript(id int, script []epochScript, tm timing, can *mon.Canary) {
 					fail("reconnect.stuck", "other", nil, "epoch %d: the reconnect (%s) did not reach an accepted connect response", ei, e.Reconnect)
 					return
 				}
-				if !waitFor(func() bool { x, ok := lastRxTaken(causeFrom, spec.SvcConnRes); return ok && x.P.Status == 0 }, hang) {
+				okConnRes := func() (memsock.Event, bool) {
+					for _, x := range s.LogFrom(causeFrom) {
+						if x.Kind == memsock.Rx && x.Taken && x.P.Service == spec.SvcConnRes && x.P.Status == 0 {
+							return x, true
+						}
+					}
+					return memsock.Event{}, false
+				}
+				if !waitFor(func() bool { _, ok := okConnRes(); return ok }, hang) {
 					fail("reconnect.stuck", "other", nil, "epoch %d: the accepted connect response was not taken by the client", ei)
 					return
 				}
-				cres, _ := lastRxTaken(causeFrom, spec.SvcConnRes)
+				cres, _ := okConnRes()
 				_, _, _, nch := getPhase()
 				// sync point: inbound request with the new channel and number 0
 				f2 := s.Len()
